@@ -231,20 +231,20 @@ Proof.
       assert (Hf : fold_left st_del ([k] ++ map fst B ++ [fst e]) (older ++ [(k, t)]) = rev R).
       { rewrite fold_st_del, Eo, <- app_assoc, filter_app.
         rewrite filter_all, filter_none; [apply app_nil_r | |].
-        - intros x Hx. apply negb_false_iff, mem_Z_In.
+        - intros x Hx. apply negb_false_iff, mem_Z_In. cbn [app].
           change (e :: rev B) with ([e] ++ rev B) in Hx. rewrite <- app_assoc in Hx.
-          apply in_app_or in Hx. destruct Hx as [[<- | []] | Hx].
-          + apply in_or_app. right. apply in_or_app. right. left. reflexivity.
-          + apply in_app_or in Hx. destruct Hx as [Hx | [<- | []]].
-            * apply in_or_app. right. apply in_or_app. left. apply in_map. apply in_rev. exact Hx.
-            * left. reflexivity.
+          apply in_app_or in Hx. destruct Hx as [[E | []] | Hx].
+          + subst x. right. apply in_or_app. right. left. reflexivity.
+          + apply in_app_or in Hx. destruct Hx as [Hx | [E | []]].
+            * right. apply in_or_app. left. apply in_map. apply in_rev. exact Hx.
+            * subst x. left. reflexivity.
         - intros x Hx. apply negb_true_iff. destruct (mem_Z (fst x) ([k] ++ map fst B ++ [fst e])) eqn:M; [| reflexivity].
           exfalso. apply mem_Z_In in M. apply (in_map fst) in Hx.
-          destruct M as [<- | M].
-          + apply Hko. apply in_or_app. left. exact Hx.
-          + apply (NoDup_app_disjoint _ _ _ Hno Hx). apply in_app_or in M. destruct M as [M | [<- | []]].
+          destruct M as [E | M].
+          + apply Hko. apply in_or_app. left. rewrite E. exact Hx.
+          + apply (NoDup_app_disjoint _ _ _ Hno Hx). apply (in_app_or (map fst B) [fst e]) in M. destruct M as [M | [E | []]].
             * right. rewrite map_rev. apply in_rev. rewrite rev_involutive. exact M.
-            * left. reflexivity. }
+            * left. exact E. }
       rewrite Hf. eexists _, _. split; [reflexivity |]. constructor.
       * rewrite map_rev. reflexivity.
       * rewrite map_app. reflexivity.
@@ -254,4 +254,266 @@ Proof.
         -- apply (NoDup_app_l _ _ Hno).
         -- rewrite Eo, !map_app. apply in_or_app. left. apply in_or_app. right. left. reflexivity.
         -- intro H. apply (NoDup_app_disjoint _ _ _ Hno H). left. reflexivity.
+Qed.
+
+Lemma splitStep_eq isMulti n k older cur done vertexIdx v :
+  ~ In k (map fst older) -> (vertexIdx =? 0) = false ->
+  splitStep isMulti n (mkSplit k (older ++ [(k, cur)]) done) vertexIdx v =
+    if negb (isMulti v) && (vertexIdx <? n - 1) then Ok (mkSplit k (older ++ [(k, cur ++ [v])]) done)
+    else do sd <- cphase k (older ++ [(k, cur ++ [v])]) done (cur ++ [v]);
+         let '(stk2, done2) := sd in
+         if vertexIdx <? n - 1
+         then Ok (mkSplit (k + 1) (st_set stk2 (k + 1) (st_value stk2 (k + 1) ++ [v])) done2)
+         else if (0 <? length stk2)%nat then Err PartialRingsOnStack else Ok (mkSplit k stk2 done2).
+Proof.
+  intros Hk H0. unfold splitStep. cbn [sIdx sStack sDone]. rewrite H0. cbn [orb].
+  unfold st_value. rewrite !st_get_top by exact Hk. rewrite !st_set_top by exact Hk.
+  assert (Ht : cur ++ [v] <> []) by (intro E; apply app_eq_nil in E; destruct E; discriminate).
+  destruct (isMulti v); cbn [negb andb]; rewrite st_get_top by exact Hk.
+  - unfold cphase. rewrite first_last_eq_spec by exact Ht. cbn [bind].
+    destruct (closedb (cur ++ [v])); reflexivity.
+  - destruct (vertexIdx <? n - 1); [reflexivity |].
+    unfold cphase. rewrite first_last_eq_spec by exact Ht. cbn [bind].
+    destruct (closedb (cur ++ [v])); reflexivity.
+Qed.
+
+(** ** the refinement relation *)
+Definition refines (st : splitState) (a : astate) : Prop :=
+  kinv (sIdx st) (sStack st) (sDone st) /\
+  (exists older cur, sStack st = older ++ [(sIdx st, cur)]) /\
+  map snd (sStack st) = rev (fst a) /\ map snd (sDone st) = snd a.
+
+Lemma refines_shape k stk done K D : refines (mkSplit k stk done) (K, D) ->
+  exists older cur rest, stk = older ++ [(k, cur)] /\ K = cur :: rest /\ map snd older = rev rest /\
+                         ~ In k (map fst older).
+Proof.
+  intros [Hk [[older [cur E]] [Hv Hd]]]. cbn [sIdx sStack sDone fst snd] in *.
+  exists older, cur, (rev (map snd older)). split; [exact E |]. split; [| split].
+  - rewrite E, map_app in Hv. cbn [map snd] in Hv.
+    rewrite <- (rev_involutive K), <- Hv, rev_unit. reflexivity.
+  - rewrite rev_involutive. reflexivity.
+  - pose proof (k_nodup _ _ _ Hk) as Kn. rewrite E, map_app in Kn. cbn [map fst] in Kn.
+    apply (NoDup_snoc_inv _ _ Kn).
+Qed.
+
+Lemma kinv_same_keys k stk stk' done : map fst stk' = map fst stk -> kinv k stk done -> kinv k stk' done.
+Proof.
+  intros E [Kn Kl Dn Dl Df]. constructor; try assumption.
+  - rewrite E. exact Kn.
+  - apply (Forall_incl_fst (fun z => z <= k) stk stk'); [rewrite E; apply incl_refl | exact Kl].
+  - rewrite E. exact Df.
+Qed.
+
+Lemma kinv_push k stk done (p : list pt) : kinv k stk done -> kinv (k + 1) (stk ++ [(k + 1, p)]) done.
+Proof.
+  intros [Kn Kl Dn Dl Df].
+  assert (Hf : ~ In (k + 1) (map fst stk)).
+  { intro H. apply in_map_iff in H. destruct H as [e [E He]]. rewrite Forall_forall in Kl. apply Kl in He. lia. }
+  constructor.
+  - rewrite map_app. cbn [map fst]. apply NoDup_snoc; assumption.
+  - apply Forall_app. split; [| constructor; [cbn [fst]; lia | constructor]].
+    eapply Forall_impl; [| exact Kl]. cbn beta. intros; lia.
+  - exact Dn.
+  - eapply Forall_impl; [| exact Dl]. cbn beta. intros; lia.
+  - intros key H H2. rewrite map_app in H2. apply in_app_or in H2. destruct H2 as [H2 | [H2 | []]].
+    + apply (Df key H H2).
+    + cbn [fst] in H2. apply in_map_iff in H. destruct H as [e [E He]]. rewrite Forall_forall in Dl. apply Dl in He. lia.
+Qed.
+
+Lemma fresh_key k stk done : kinv k stk done -> ~ In (k + 1) (map fst stk).
+Proof.
+  intros [Kn Kl Dn Dl Df] H. apply in_map_iff in H. destruct H as [e [E He]].
+  rewrite Forall_forall in Kl. apply Kl in He. lia.
+Qed.
+
+Lemma step_refines_nonlast isMulti n r0 vprev st a a' vertexIdx v :
+  refines st a -> ainv r0 vprev (fst a) -> 1 <= vertexIdx < n - 1 ->
+  astep isMulti false v a = Some a' ->
+  exists st', splitStep isMulti n st vertexIdx v = Ok st' /\ refines st' a'.
+Proof.
+  intros HR Ha Hi E. destruct st as [k stk done]. destruct a as [K D].
+  destruct (refines_shape _ _ _ _ _ HR) as [older [cur [rest [Es [EK [Hv Hko]]]]]]. subst stk K.
+  destruct HR as [Hk [_ [_ Hd]]]. cbn [sIdx sStack sDone fst snd] in *.
+  rewrite splitStep_eq by (try assumption; apply Z.eqb_neq; lia).
+  replace (vertexIdx <? n - 1) with true by (symmetry; apply Z.ltb_lt; lia).
+  cbn [astep] in E. cbn [negb] in E. rewrite andb_true_r in *.
+  destruct (negb (isMulti v)).
+  - inversion E; subst a'. eexists. split; [reflexivity |]. unfold refines. cbn [sIdx sStack sDone fst snd].
+    split; [| split; [| split]].
+    + apply (kinv_same_keys k (older ++ [(k, cur)])); [rewrite !map_app; reflexivity | exact Hk].
+    + eexists _, _. reflexivity.
+    + rewrite map_app. cbn [map snd rev]. rewrite Hv. reflexivity.
+    + exact Hd.
+  - destruct (aphase cur rest D v) as [K2 D2] eqn:Eph. inversion E; subst a'.
+    rewrite <- Hd in Eph.
+    destruct (cphase_refines k older cur v done r0 vprev rest K2 D2 Hk Hv Ha Eph) as [stk2 [done2 [Ec [Pv Pd Ps Pk]]]].
+    rewrite Ec. cbn [bind].
+    pose proof (fresh_key _ _ _ Pk) as Hf.
+    unfold st_value. rewrite st_get_fresh by exact Hf. rewrite st_set_fresh by exact Hf. cbn [app].
+    eexists. split; [reflexivity |]. unfold refines. cbn [sIdx sStack sDone fst snd].
+    split; [| split; [| split]].
+    + apply kinv_push, Pk.
+    + eexists _, _. reflexivity.
+    + rewrite map_app. cbn [map snd rev]. rewrite Pv. reflexivity.
+    + exact Pd.
+Qed.
+
+Lemma step_refines_last isMulti n r0 vprev st a D' vertexIdx v :
+  refines st a -> ainv r0 vprev (fst a) -> 1 <= vertexIdx -> vertexIdx = n - 1 ->
+  astep isMulti true v a = Some ([], D') ->
+  exists st', splitStep isMulti n st vertexIdx v = Ok st' /\ map snd (sDone st') = D' /\
+              NoDup (map fst (sDone st')).
+Proof.
+  intros HR Ha Hi Hn E. destruct st as [k stk done]. destruct a as [K D].
+  destruct (refines_shape _ _ _ _ _ HR) as [older [cur [rest [Es [EK [Hv Hko]]]]]]. subst stk K.
+  destruct HR as [Hk [_ [_ Hd]]]. cbn [sIdx sStack sDone fst snd] in *.
+  rewrite splitStep_eq by (try assumption; apply Z.eqb_neq; lia).
+  replace (vertexIdx <? n - 1) with false by (symmetry; apply Z.ltb_ge; lia).
+  cbn [astep] in E. cbn [negb] in E. rewrite andb_false_r in *.
+  destruct (aphase cur rest D v) as [K2 D2] eqn:Eph.
+  destruct K2 as [| q2 K2]; [| discriminate]. inversion E; subst D'.
+  rewrite <- Hd in Eph.
+  destruct (cphase_refines k older cur v done r0 vprev rest [] D2 Hk Hv Ha Eph) as [stk2 [done2 [Ec [Pv Pd Ps Pk]]]].
+  rewrite Ec. cbn [bind]. cbn [rev] in Pv. apply map_eq_nil in Pv. subst stk2. cbn [length Nat.ltb Nat.leb].
+  eexists. split; [reflexivity |]. cbn [sDone]. split; [exact Pd | apply (d_nodup _ _ _ Pk)].
+Qed.
+
+(** ** the loop *)
+Lemma loop_refines isMulti n r0 : forall l pref st a i,
+  refines st a -> sinv r0 pref a -> pref <> [] -> 1 <= i -> i + zlen (l ++ [r0]) = n ->
+  exists st' D', splitLoop isMulti n st i (l ++ [r0]) = Ok st' /\
+                 aloop isMulti (l ++ [r0]) a = Some ([], D') /\
+                 map snd (sDone st') = D' /\ NoDup (map fst (sDone st')).
+Proof.
+  induction l as [| v l IH]; intros pref st a i HR Hs Hp Hi Hn.
+  - cbn [app] in *. unfold zlen in Hn. cbn [length] in Hn. cbn [splitLoop aloop isnil].
+    destruct (astep_last isMulti r0 pref a Hs Hp) as [D' [E _]].
+    destruct (step_refines_last isMulti n r0 _ st a D' i r0 HR (s_a _ _ _ Hs) Hi ltac:(lia) E) as [st' [E1 [E2 E3]]].
+    rewrite E1, E. cbn [bind]. exists st', D'. auto.
+  - cbn [app] in *. unfold zlen in Hn. cbn [length] in Hn. rewrite app_length in Hn. cbn [length] in Hn.
+    cbn [splitLoop aloop]. replace (isnil (l ++ [r0])) with false by (destruct l; reflexivity).
+    destruct (astep_nonlast isMulti r0 pref v a Hs Hp) as [a' [E Hs']].
+    destruct (step_refines_nonlast isMulti n r0 _ st a a' i v HR (s_a _ _ _ Hs) ltac:(lia) E) as [st' [E1 HR']].
+    rewrite E1, E. cbn [bind].
+    apply (IH (pref ++ [v]) st' a' (i + 1)); try assumption; try lia.
+    + intro X. apply app_eq_nil in X. destruct X; discriminate.
+    + unfold zlen. rewrite app_length. cbn [length]. lia.
+Qed.
+
+(** ** sortComplete is a permutation when keys are distinct *)
+Lemma insert_sorted_perm k v l : ~ In k (map fst l) -> Permutation (insert_sorted k v l) ((k, v) :: l).
+Proof.
+  induction l as [| [k' v'] l IH]; intro H; cbn [insert_sorted]; [apply Permutation_refl |].
+  destruct (k <? k'); [apply Permutation_refl |].
+  destruct (Z.eqb_spec k k') as [E | N]; [exfalso; apply H; left; cbn; congruence |].
+  eapply Permutation_trans; [apply perm_skip, IH | apply perm_swap].
+  intro H'. apply H. right. exact H'.
+Qed.
+
+Lemma sortComplete_perm_gen c : forall acc, NoDup (map fst c ++ map fst acc) ->
+  Permutation (fold_left (fun acc e => insert_sorted (fst e) (snd e) acc) c acc) (c ++ acc).
+Proof.
+  induction c as [| [k v] c IH]; intros acc ND; cbn [fold_left app]; [apply Permutation_refl |].
+  cbn [map fst app] in ND. inversion ND as [| ? ? Hn Hd]; subst.
+  assert (Hk : ~ In k (map fst acc)) by (intro H; apply Hn, in_or_app; right; exact H).
+  pose proof (insert_sorted_perm k v acc Hk) as P.
+  eapply Permutation_trans; [apply IH |].
+  - eapply Permutation_NoDup; [| exact ND].
+    cbn [fst snd]. apply Permutation_sym. eapply Permutation_trans; [apply Permutation_app_head, (Permutation_map fst), P |].
+    cbn [map fst]. apply Permutation_sym, Permutation_middle.
+  - cbn [fst snd]. eapply Permutation_trans; [apply Permutation_app_head, P |].
+    apply Permutation_sym, Permutation_middle.
+Qed.
+
+Lemma sortComplete_perm c : NoDup (map fst c) -> Permutation (map snd (sortComplete c)) (map snd c).
+Proof.
+  intro ND. unfold sortComplete. apply Permutation_map.
+  rewrite <- (app_nil_r c) at 2. apply sortComplete_perm_gen. cbn [map]. rewrite app_nil_r. exact ND.
+Qed.
+
+(** ** classification *)
+Definition smallb (r : ring) : bool := (length r <? 3)%nat.
+Definition isOutb (isOuter : bool) (r : ring) : bool :=
+  negb (smallb r) && (if isOuter then windingOrderIsCorrect r false else negb (windingOrderIsCorrect r true)).
+Definition isInb (isOuter : bool) (r : ring) : bool :=
+  negb (smallb r) && (if isOuter then negb (windingOrderIsCorrect r false) else windingOrderIsCorrect r true).
+
+Lemma classify_fold isOuter rings : forall acc,
+  let s := fold_left (classify isOuter) rings acc in
+  outers s = outers acc ++ filter (isOutb isOuter) rings /\
+  inners s = inners acc ++ filter (isInb isOuter) rings /\
+  pointsAndLines s = pointsAndLines acc ++ filter smallb rings.
+Proof.
+  induction rings as [| r rings IH]; intro acc; cbn [fold_left filter].
+  - rewrite !app_nil_r. auto.
+  - destruct (IH (classify isOuter acc r)) as [E1 [E2 E3]]. cbn zeta in *. rewrite E1, E2, E3.
+    unfold classify, isOutb, isInb, smallb.
+    destruct (length r <? 3)%nat; cbn [negb andb outers inners pointsAndLines].
+    + rewrite <- app_assoc. auto.
+    + destruct isOuter.
+      * destruct (windingOrderIsCorrect r false); cbn [negb outers inners pointsAndLines]; rewrite <- ?app_assoc; auto.
+      * destruct (windingOrderIsCorrect r true); cbn [negb outers inners pointsAndLines]; rewrite <- ?app_assoc; auto.
+Qed.
+
+Lemma three_way_perm isOuter (rings : list ring) :
+  Permutation (filter (isOutb isOuter) rings ++ filter (isInb isOuter) rings ++ filter smallb rings) rings.
+Proof.
+  induction rings as [| r rings IH]; [constructor |]. cbn [filter].
+  unfold isOutb at 1, isInb at 1. destruct (smallb r); cbn [negb andb].
+  - apply Permutation_sym. rewrite app_assoc. apply Permutation_cons_app. rewrite <- app_assoc.
+    apply Permutation_sym, IH.
+  - destruct isOuter.
+    + destruct (windingOrderIsCorrect r false); cbn [negb].
+      * cbn [app]. apply perm_skip, IH.
+      * apply Permutation_sym. apply Permutation_cons_app. apply Permutation_sym, IH.
+    + destruct (windingOrderIsCorrect r true); cbn [negb].
+      * apply Permutation_sym. apply Permutation_cons_app. apply Permutation_sym, IH.
+      * cbn [app]. apply perm_skip, IH.
+Qed.
+
+(** [splitRing] without the final swap, and the swap *)
+Definition classifyAll (isOuter : bool) (rings : list ring) : ringSets :=
+  fold_left (classify isOuter) rings (mkSets [] [] []).
+
+Definition swapb (isOuter : bool) (s : ringSets) : bool :=
+  (isOuter && (length (outers s) =? 0)%nat && (0 <? length (inners s))%nat) ||
+  (negb isOuter && (length (inners s) =? 0)%nat && (0 <? length (outers s))%nat).
+
+Definition swapSets (isOuter : bool) (s : ringSets) : ringSets :=
+  if isOuter then mkSets (map (@rev pt) (inners s)) [] (pointsAndLines s)
+  else mkSets [] (map (@rev pt) (outers s)) (pointsAndLines s).
+
+Theorem splitRing_spec (r : ring) isOuter isMulti r0 t : r = r0 :: t ->
+  exists D rings, aloop isMulti (t ++ [r0]) ([[r0]], []) = Some ([], D) /\ Permutation rings D /\
+    splitRing r isOuter isMulti =
+      Ok (let s := classifyAll isOuter rings in if swapb isOuter s then swapSets isOuter s else s).
+Proof.
+  intros ->. unfold splitRing. rewrite idx_0_cons. cbn [bind].
+  set (n := zlen ((r0 :: t) ++ [r0])).
+  assert (Hn : n = Z.of_nat (length t) + 2).
+  { unfold n, zlen. cbn [app length]. rewrite app_length. cbn [length]. lia. }
+  cbn [app splitLoop].
+  assert (E0 : splitStep isMulti n (mkSplit 0 [(0, [])] []) 0 r0 = Ok (mkSplit 0 [(0, [r0])] [])).
+  { unfold splitStep. cbn [sIdx sStack sDone st_get st_set Z.eqb orb app andb].
+    replace (0 <? n - 1) with true by (symmetry; apply Z.ltb_lt; lia). reflexivity. }
+  rewrite E0. cbn [bind].
+  assert (HR : refines (mkSplit 0 [(0, [r0])] []) ([[r0]], [])).
+  { unfold refines. cbn [sIdx sStack sDone fst snd map rev app]. split; [| split; [| auto]].
+    - constructor; cbn [map fst].
+      + constructor; [intros [] | constructor].
+      + constructor; [cbn; lia | constructor].
+      + constructor.
+      + constructor.
+      + intros key [].
+    - exists [], [r0]. reflexivity. }
+  destruct (loop_refines isMulti n r0 t [r0] _ _ 1 HR (sinv_init r0)) as [st' [D' [E1 [E2 [E3 E4]]]]];
+    [discriminate | lia | unfold zlen; rewrite app_length; cbn [length]; lia |].
+  change (0 + 1) with 1. rewrite E1. cbn [bind].
+  exists D', (map snd (sortComplete (sDone st'))). split; [exact E2 |]. split.
+  - rewrite <- E3. apply sortComplete_perm, E4.
+  - fold (classifyAll isOuter (map snd (sortComplete (sDone st')))).
+    set (s := classifyAll isOuter (map snd (sortComplete (sDone st')))). cbn zeta.
+    unfold swapb, swapSets. destruct isOuter; cbn [andb negb orb].
+    + destruct ((length (outers s) =? 0)%nat && (0 <? length (inners s))%nat); reflexivity.
+    + destruct ((length (inners s) =? 0)%nat && (0 <? length (outers s))%nat); reflexivity.
 Qed.
